@@ -741,6 +741,7 @@ def TRUNC(
     if num_digits == 0:
         return math.trunc(number)
 
-    num_digits = int(num_digits)
-
-    return math.trunc(number * 10**num_digits) / 10**num_digits
+    # Truncate the decimal representation: the binary product
+    # number * 10**num_digits may fall just below the next integer
+    # (2388.2 * 100 = 238819.99999999997 gave 2388.19).
+    return _round(number, num_digits, decimal.ROUND_DOWN)
